@@ -296,7 +296,7 @@ func c09Run(line string) string {
 		c09Self = c09U(f[1])
 		c09S = c09New(c09Self)
 		c09Hist = nil
-		return "ok"
+		return c09CheckOracle(f[2:])
 	}
 	if c09S == nil {
 		c09S = c09New(c09Self)
@@ -316,6 +316,22 @@ func c09Run(line string) string {
 	}
 	c09Hist = append(c09Hist, line)
 	return c09TablesOp(c09S, f)
+}
+
+// c09CheckOracle verifies the claims about strings.ToLower (f:in:out) / strings.TrimSpace (t:in:out)
+// a reset line carries against the standard library.
+func c09CheckOracle(toks []string) string {
+	for _, tok := range toks {
+		p := strings.Split(tok, ":")
+		if len(p) != 3 {
+			return "bad-oracle"
+		}
+		in, out := c09Str(p[1]), c09Str(p[2])
+		if !((p[0] == "f" && strings.ToLower(in) == out) || (p[0] == "t" && strings.TrimSpace(in) == out)) {
+			return "bad-oracle"
+		}
+	}
+	return "ok"
 }
 
 // c09Do executes an op without printing.
@@ -754,8 +770,95 @@ func c09GenTies(w *bufio.Writer, r *rng, n int) {
 	}
 }
 
+// c09Exotic: labels outside ASCII - letters whose lower-casing changes the byte length (İ, K),
+// letters without a lower case (ß), final/medial sigma, long s, full-width letters and full stop,
+// NUL, Unicode spaces, and ill-formed UTF-8 (lone lead/continuation bytes, an overlong '.').
+var c09Exotic = []string{"\u0130", "\u0131", "I", "i", "\u00df", "SS", "\u212a", "K", "k", "\u017f", "S", "\u03a3", "\u03c3", "\u03c2",
+	"\uff21\uff22", "\uff41\uff42", "\uff0e", "\x00", "a\x00b", "\u00a0", "\u0085", "\u00c4", "\u00e4", "\u01c5", "\u01c4", "\u01c6",
+	"\xff", "\xfe", "\xc3", "\xa4", "\xe2\x84", "\xc0\xae", "\xed\xa0\x80", "\u1e9e", "\u0390", "\U00010400", "\U00010428"}
+
+func c09ExoticName(r *rng, labels int) string {
+	parts := make([]string, labels)
+	for i := range parts {
+		switch r.intn(3) {
+		case 0:
+			parts[i] = c09Exotic[r.intn(len(c09Exotic))]
+		case 1:
+			parts[i] = c09Exotic[r.intn(len(c09Exotic))] + c09Labels[r.intn(len(c09Labels))]
+		default:
+			parts[i] = c09Labels[r.intn(len(c09Labels))]
+		}
+	}
+	return strings.Join(parts, ".")
+}
+
+// c09GenUnicode: domain-table histories over non-ASCII and ill-formed names. The model is
+// parametric in strings.ToLower / strings.TrimSpace; for every string of the case the generator
+// states Go's own result in an `oracle` line (the harness re-checks it when the script runs), so
+// model and spec use exactly the folding the code uses - including where it changes the byte
+// length or maps distinct ill-formed names onto one key.
+func c09GenUnicode(w *bufio.Writer, r *rng, nops int) {
+	hx := func(s string) string { return hexTok([]byte(s)) }
+	var pats, names []string
+	for i := 0; i < 4; i++ {
+		base := c09ExoticName(r, 1+r.intn(2))
+		exact := c09ExoticName(r, 1) + "." + base
+		pats = append(pats, exact, "*."+base, c09FlipCase(r, exact), "*."+strings.ToUpper(base), strings.ToLower(exact))
+		names = append(names, exact, strings.ToUpper(exact), strings.ToLower(exact), c09ExoticName(r, 1)+"."+base,
+			c09ExoticName(r, 1)+"."+strings.ToUpper(base), "x."+exact, base, "."+base, exact+".")
+	}
+	pats = append(pats, "\u00a0*."+pats[1][2:], pats[0]+"\u0085", " "+pats[2])
+	header := []string{"reset", "1"}
+	told := map[string]bool{}
+	tell := func(kind, in, out string) {
+		nonASCII := false
+		for i := 0; i < len(in); i++ {
+			if in[i] >= 0x80 {
+				nonASCII = true
+			}
+		}
+		if nonASCII && !told[kind+in] {
+			told[kind+in] = true
+			header = append(header, kind[:1]+":"+hx(in)+":"+hx(out))
+		}
+	}
+	for _, p := range pats {
+		tell("fold", p, strings.ToLower(p))
+		tell("trim", p, strings.TrimSpace(p))
+		_, base := routing.ParseDomainPattern(p)
+		tell("fold", base, strings.ToLower(base))
+	}
+	for _, n := range names {
+		tell("fold", n, strings.ToLower(n))
+	}
+	fmt.Fprintln(w, strings.Join(header, " "))
+	for i := 0; i < nops; i++ {
+		p := pats[r.intn(len(pats))]
+		switch k := r.intn(100); {
+		case k < 35:
+			fmt.Fprintf(w, "dadv %s %d %d %d %d -\n", hx(p), 2+r.intn(3), 2+r.intn(3), r.intn(4), 1+r.intn(3))
+		case k < 42:
+			b := names[r.intn(len(names))]
+			fmt.Fprintf(w, "dadd %s %d %s %d %d %d %d -\n", hx(p), r.intn(2), hx(b), 2+r.intn(3), 2+r.intn(3), r.intn(4), 1+r.intn(3))
+		case k < 50:
+			fmt.Fprintf(w, "drm %s %d\n", hx(p), 2+r.intn(3))
+		case k < 54:
+			fmt.Fprintf(w, "dhas %s %d\n", hx(p), 2+r.intn(3))
+		default:
+			fmt.Fprintf(w, "%s %s\n", r.pickS("dlook", "mdlook"), hx(names[r.intn(len(names))]))
+		}
+	}
+}
+
 func c09Gen(w *bufio.Writer, seed int64, tier string) {
 	r := newRng(c09Mix(seed))
+	uni := 12
+	if tier == "thorough" {
+		uni = 400
+	}
+	for c := 0; c < uni; c++ {
+		c09GenUnicode(w, r, 40)
+	}
 	ties := 2
 	if tier == "thorough" {
 		ties = 25
